@@ -28,4 +28,3 @@ var trustedBase = []string{
 	"documented contracts of sync, sync/atomic, time, encoding/binary, math/big, container/list, gods red-black tree, goleveldb, pebble, go-ethereum rlp",
 	"the frozen rule tables in /verif/checker/rules (written from the property statements, reviewed against the code)",
 }
-
